@@ -39,7 +39,8 @@ impl Case {
     }
 }
 
-const VALUES: &[&str] = &["a", "b", "c", "d"];
+// parameter values are plain strings: the empty string and a blank are values like any other
+const VALUES: &[&str] = &["a", "", "c", " "];
 
 fn gen_case(rng: &mut Rng, base: u64, long: bool) -> Case {
     let q = *rng.pick(&[0u64, 1, 1, 2, 3, 5, 10]);
